@@ -579,10 +579,24 @@ def float_neighbour_cases(rng: random.Random) -> List[JCase]:
     return out
 
 
+def blank_cases(rng: random.Random) -> List[JCase]:
+    """not-blank over strings made only of white space that is not ASCII (no-break space, em space, ideographic
+    space, line separator): blank for validator and schema alike."""
+    out: List[JCase] = []
+    NB = ("Scalar", ("KStr",), None, [], [("PNotBlank",)], [])
+    NB_STRIP = ("Scalar", ("KStr",), None, [("Strip",)], [("PNotBlank",)], [])
+    for st in ("\u00a0", "\u2003", "\u3000", "\u2028", " \u00a0\t", "\u00a0\u00a0", "\u2003 \u3000", "\u00a0a", "a\u3000", "", " ", "\t\n", "x"):
+        for v in (NB, NB_STRIP, ("ListV", NB, [], [], None), ("DictAnyV", [P(S("k"), NB)], None, None, False)):
+            x = S(st)
+            x = ("VList", [x, S("ok")]) if v[0] == "ListV" else ("VDict", [P(S("k"), x)]) if v[0] == "DictAnyV" else x
+            out.append(JCase(v, x, None, "blank"))
+    return out
+
+
 def gen_cases(rng: random.Random, n: int) -> List[JCase]:
     """The explicit families, a stream that is the same on every run (private generator), and n cases from the
     run's own seed - how many explicit cases there are never shortens the generated part."""
-    out: List[JCase] = sharing_cases(rng) + unique_cases(rng) + record_null_cases(rng) + float_neighbour_cases(rng)
+    out: List[JCase] = sharing_cases(rng) + unique_cases(rng) + record_null_cases(rng) + float_neighbour_cases(rng) + blank_cases(rng)
     return out + random_cases(random.Random(110911), 500) + random_cases(rng, n)
 
 
